@@ -4,6 +4,7 @@ import Enc.Lemmas.StreamStable
 import Enc.Lemmas.StreamFull
 import Enc.Spec.Json.StreamSpec
 import Enc.Lemmas.StreamErr
+import Enc.Lemmas.StreamOffsetBounds
 /-!
 # C11 — json.Decoder yields the same value stream however the bytes arrive
 Property theorems only.
@@ -115,5 +116,112 @@ theorem chunking_independent_err {minBuf minRead : Nat} (h0 : 0 < minRead) (h1 :
     decodeAll minBuf minRead limit { reader := evs₁, final := final } =
       decodeAll minBuf minRead limit { reader := evs₂, final := final } :=
   Lemmas.StreamErr.chunking_independent_err h0 h1 final evs₁ evs₂ hw₁ hw₂ heq limit
+
+/-! ## InputOffset, Buffered, Parse (proofs in Enc/Lemmas/StreamOffset.lean, StreamOffsetBounds.lean)
+
+`decodeCalls minBuf minRead limit extra s` is `Decode` called repeatedly from the decoder state `s` — each call's outcome
+with the state after it, from which `InputOffset` (`St.inputOffset`) and `Buffered` (`St.buffered`) are read — until the
+`extra + 1`-th call that does not return a value; with `extra = 0` it is the loop of `decodeAll` (`decodeAll_eq_calls`). -/
+
+theorem decodeAll_eq_calls (minBuf minRead limit : Nat) (s : St) :
+    decodeAll minBuf minRead limit s = (decodeCalls minBuf minRead limit 0 s).map (·.1) :=
+  Lemmas.StreamOffset.decodeAll_eq_calls minBuf minRead limit s
+
+/-- the specification stream with positions is the specification stream of the first half -/
+theorem specStreamPos_values (n pos : Nat) (b : Bytes) :
+    (Spec.Json.specStreamPos n pos b).map (·.1) = Spec.Json.specStream n b :=
+  Lemmas.StreamOffset.specStreamPos_fst n pos b
+
+/-- **InputOffset never decreases** over any sequence of `Decode` calls, whatever they return (values, syntax errors, EOF,
+reader errors, calls on a Decoder that has already failed): the offset before the first call followed by the offsets read
+after each call is a sorted list. No hypothesis: any decoder state, any script of `Read` results (errors anywhere), any
+buffer constants. -/
+theorem inputOffset_monotone (minBuf minRead limit extra : Nat) (s : St) :
+    List.Pairwise (· ≤ ·) (s.inputOffset :: (decodeCalls minBuf minRead limit extra s).map (·.2.inputOffset)) :=
+  Lemmas.StreamOffset.decodeCalls_monotone minBuf minRead limit extra s
+
+/-- one call: the offset after any `readValue` call is at least the offset before it -/
+theorem inputOffset_monotone_step (minBuf minRead fuel : Nat) (s : St) :
+    s.inputOffset ≤ (readValue minBuf minRead fuel s).2.inputOffset :=
+  Lemmas.StreamOffset.readValue_offset_le minBuf minRead fuel s
+
+/-- a stream of two values read one byte at a time, two more calls after the end: offsets 4, 7, 7, 7 (after 0) -/
+example : (0 :: (decodeCalls 4 2 8 2 { reader := [⟨[0x5b], none⟩, ⟨[0x31], none⟩, ⟨[0x5d], none⟩, ⟨[0x20], none⟩,
+      ⟨[0x20], none⟩, ⟨[0x37], none⟩, ⟨[0x0a], none⟩], final := .eof }).map (·.2.inputOffset)) = [0, 4, 7, 7, 7, 7] := by
+  decide +kernel
+
+open Lemmas.StreamErr in
+/-- **Buffered conserves the bytes.** From a fresh Decoder over ANY script of `Read` results (any chunking, zero-length
+reads, errors anywhere, even bytes after errors), any terminal condition, any buffer constants: after every `Decode` call
+(successful or not) the first `InputOffset` bytes of the whole input, followed by the bytes `Buffered` returns, followed by
+the bytes the reader has not delivered yet, are the whole input — `Buffered` followed by the unread remainder of the reader
+is exactly the unconsumed input. (Before the first call: offset 0, `Buffered` empty, nothing delivered.) -/
+theorem buffered_conserves (minBuf minRead limit extra : Nat) (final : RErr) (evs : Reader) :
+    ∀ p ∈ decodeCalls minBuf minRead limit extra { reader := evs, final := final },
+      p.2.inputOffset ≤ (allBytes evs).length ∧
+      (allBytes evs).drop p.2.inputOffset = p.2.buffered ++ allBytes p.2.reader ∧
+      (allBytes evs).take p.2.inputOffset ++ p.2.buffered ++ allBytes p.2.reader = allBytes evs :=
+  Lemmas.StreamOffset.decodeCalls_conserves minBuf minRead limit extra final evs
+
+/-- the same stream with a buffer of 8 bytes: the first refill takes all 7 bytes; after the first call the offset is 5,
+the two bytes `7`, `LF` are buffered and the script is exhausted; after the second call nothing is left -/
+example : (decodeCalls 8 2 8 0 { reader := [⟨[0x5b], none⟩, ⟨[0x31], none⟩, ⟨[0x5d], none⟩, ⟨[0x20], none⟩,
+      ⟨[0x20], none⟩, ⟨[0x37], none⟩, ⟨[0x0a], none⟩], final := .eof }).map
+        (fun p => (p.2.inputOffset, p.2.buffered, p.2.reader.length)) = [(5, [0x37, 0x0a], 0), (7, [], 0), (7, [], 0)] := by
+  decide +kernel
+
+open Lemmas.StreamErr in
+/-- **InputOffset lies between the end of the value just returned and the start of the next.** Script obeying the
+`io.Reader` contract (`WF`: any chunking, zero-length reads, data delivered together with the terminal condition), terminal
+condition io.EOF or a failure, `0 < minReadSize ≤ minBufferSize`. If the `i`-th `Decode` call returns a value then this value
+is the `i`-th element of the chunking-free specification stream of the concatenated bytes, found there at `[start, stop)`,
+and the offset read after the call satisfies `stop ≤ InputOffset ≤ start'`, where `start'` is the position of the next
+element of the specification stream (the next value, or the place where the stream ends or fails, white space skipped) —
+which exists whenever `i + 1 < limit`. -/
+theorem inputOffset_bounds {minBuf minRead : Nat} (h0 : 0 < minRead) (h1 : minRead ≤ minBuf) (final : RErr)
+    (evs : Reader) (hw : WF final evs) (limit i : Nat) (raw : Bytes) (k : Kind) (s' : St)
+    (hcall : (decodeCalls minBuf minRead limit 0 { reader := evs, final := final })[i]? = some (.value raw k, s')) :
+    ∃ start stop, (Spec.Json.specStreamPos limit 0 (allBytes evs))[i]? = some (.value raw, start, stop) ∧
+      stop ≤ s'.inputOffset ∧
+      (i + 1 < limit → ∃ x, (Spec.Json.specStreamPos limit 0 (allBytes evs))[i + 1]? = some x) ∧
+      ∀ o' start' stop', (Spec.Json.specStreamPos limit 0 (allBytes evs))[i + 1]? = some (o', start', stop') →
+        s'.inputOffset ≤ start' :=
+  Lemmas.StreamOffset.decodeCalls_bounds h0 h1 final evs hw limit i raw k s' hcall
+
+open Lemmas.StreamErr in
+/-- the hypotheses are satisfiable and the bounds are not always tight: `[1]  7\n` one byte at a time, buffer of 4 bytes.
+The values sit at `[0,3)` and `[5,6)`, the stream ends at 7; the offsets after the two successful calls are 4 (strictly
+between 3 and 5: the second space had not been read yet) and 7. -/
+example :
+    WF .eof [⟨[0x5b], none⟩, ⟨[0x31], none⟩, ⟨[0x5d], none⟩, ⟨[0x20], none⟩, ⟨[0x20], none⟩, ⟨[0x37], none⟩, ⟨[0x0a], none⟩] ∧
+    (decodeCalls 4 2 8 0 { reader := [⟨[0x5b], none⟩, ⟨[0x31], none⟩, ⟨[0x5d], none⟩, ⟨[0x20], none⟩,
+      ⟨[0x20], none⟩, ⟨[0x37], none⟩, ⟨[0x0a], none⟩], final := .eof }).map (fun p => (p.1, p.2.inputOffset)) =
+      [(.value [0x5b, 0x31, 0x5d] .array, 4), (.value [0x37] .uint, 7), (.eof, 7)] ∧
+    Spec.Json.specStreamPos 8 0 [0x5b, 0x31, 0x5d, 0x20, 0x20, 0x37, 0x0a] =
+      [(.value [0x5b, 0x31, 0x5d], 0, 3), (.value [0x37], 5, 6), (.eof, 7, 7)] :=
+  ⟨WF.of_clean _ (by decide), by decide +kernel, by decide +kernel⟩
+
+/-- **Parse returns as remainder exactly the bytes after the first value and its trailing white space** (syntax layer of
+`Parse`: target `*RawMessage`): the model's result is the specification's — `ok rem` with `rem` = what follows the first
+RFC 8259 value (nesting ≤ 10000) of the input, white space skipped on both sides; an error exactly when the input does not
+begin, after white space, with such a value. On a syntax error the code returns the error together with the place where
+the scanner stopped (white space skipped); the scanner model records only whether that remainder is empty, so it is not
+part of the observable. -/
+theorem parse_remainder (b : Bytes) :
+    (match parseRem b with | .ok rem => some rem | .err => none) = Spec.Json.specParseRem b :=
+  Lemmas.StreamOffset.parseRem_spec b
+
+/-- … and `consumed ++ remainder = input`, where what was consumed is white space, one value, white space; the remainder
+does not begin with white space -/
+theorem parse_remainder_split {b rem : Bytes} (h : parseRem b = .ok rem) :
+    ∃ lead v trail, b = lead ++ v ++ trail ++ rem ∧ (∀ c ∈ lead, Spec.Json.isWs c = true) ∧
+      (∀ c ∈ trail, Spec.Json.isWs c = true) ∧ v ≠ [] ∧ Spec.Json.ws (v ++ trail ++ rem) = v ++ trail ++ rem ∧
+      Spec.Json.value (3 * (v ++ trail ++ rem).length + 8) 10000 (v ++ trail ++ rem) = some (trail ++ rem) ∧
+      Spec.Json.ws rem = rem :=
+  Lemmas.StreamOffset.parseRem_split h
+
+/-- ` [1] \n7 ` leaves `7 `; ` [1 ` is an error -/
+example : parseRem [0x20, 0x5b, 0x31, 0x5d, 0x20, 0x0a, 0x37, 0x20] = .ok [0x37, 0x20] ∧
+    parseRem [0x20, 0x5b, 0x31, 0x20] = .err := by decide +kernel
 
 end Enc.Props.C11
